@@ -736,7 +736,13 @@ func (lb *LoadBalancer) proxyRequest(backend *Backend, w http.ResponseWriter, r 
 		backend.DecrementConnections()
 		lb.metricsCollector.UpdateBackendConnections(backend.Name, backend.GetActiveConnections())
 		if !completed {
-			// aborted exchange: account for it as a failed request
+			// aborted exchange: the backend failed mid-response. Send on what it did
+			// send (status, headers, partial body) before net/http drops the
+			// connection, as a client talking to the backend directly would see it
+			if rw.wroteHeader {
+				rw.Flush()
+			}
+			// account for it as a failed request
 			responseTime := time.Since(startTime)
 			lb.metricsCollector.RecordResponse(false, responseTime)
 			lb.metricsCollector.RecordBackendRequest(backend.Name, false, responseTime)
@@ -810,7 +816,8 @@ func (lb *LoadBalancer) handlePassiveHealthCheck(backend *Backend, statusCode in
 // responseWriter is a custom ResponseWriter that captures the status code
 type responseWriter struct {
 	http.ResponseWriter
-	statusCode int
+	statusCode  int
+	wroteHeader bool // a final (non-1xx) status has been forwarded
 }
 
 // WriteHeader captures the status code
@@ -819,6 +826,7 @@ func (rw *responseWriter) WriteHeader(statusCode int) {
 	// The backend's headers are forwarded as they are: a nil value keeps net/http from
 	// adding a sniffed Content-Type to a response whose origin sent none
 	if statusCode >= 200 {
+		rw.wroteHeader = true
 		if _, ok := rw.Header()["Content-Type"]; !ok {
 			rw.Header()["Content-Type"] = nil
 		}
